@@ -17,6 +17,88 @@ SUFFIXES = [[], [0], [255], [128], [5, 0], [48, 130, 255, 255], [7] * 300]
 TYPED = {"int": "int", "bool": "bool", "null": "null", "octets": "octets", "oid": "oid", "real": "real"}
 
 
+def inflate_tail(b, g):
+    """every element on the path to the LAST leaf declares g octets more than it has: the nesting stays consistent, the leaf runs
+    g octets past the end of the data"""
+    from vlib import refcodec as rc
+    b = bytearray(b)
+    pos, end = 0, len(b)
+    while True:
+        tag, cs, n, nx = rc.rd_tlv(bytes(b), pos)
+        if b[pos + 1] >= 128 or b[pos + 1] + g >= 128:
+            raise ToolError("inflate_tail needs short-form lengths")
+        b[pos + 1] += g
+        if not (tag & 0x20):
+            return bytes(b)
+        p, last = cs, None
+        while p < cs + n:
+            t2, cs2, n2, nx2 = rc.rd_tlv(bytes(b), p)
+            last = p
+            p = nx2
+        if last is None:
+            return bytes(b)
+        pos = last
+
+
+def enc_case(rec, cfg, k, g, stray_first):
+    """AES session: the reply's scoped PDU declares g octets more than were sent (CFB ciphertext has exactly the plaintext's length).
+    g = 0 is the control.  stray_first: a well-formed encrypted reply with a foreign request-id is received (and skipped) before."""
+    from vlib import rawdrv, agent as ag, refcodec as rc, refcrypto as rx
+    from checks import c01
+    a = rec.n
+    s = rawdrv.RawSession(rec, cfg)
+    agent = ag.Agent(engine=cfg.engine)
+    w, _ = s.send("get", ["1.3.6.1.2.1.1.5.0"])
+    if w is not None:
+        req = ag.Request(cfg, w)
+        if stray_first and not req.broken:
+            s.inject(agent.reply(cfg, req, [(bytes(req.names[0]), ("octets", b"SECRET-OF-ANOTHER-REQUEST-%d" % k))], reqid=(req.reqid + 5) & 0x7FFFFFFF))
+        if not req.broken:
+            pdu = rc.enc_pdu("response", req.reqid, 0, 0, [(bytes(req.names[0]), ("octets", b"short" + b"." * (k % 11)))])
+            plain = inflate_tail(rc.enc_scoped(agent.engine, b"", pdu), g)
+            kp = rx.kul(cfg.auth, cfg.pkt, cfg.pkm, agent.engine)
+            salt = bytes([0, 0, 0, 2, 7, 7, k % 256, g])
+            ct = rx.usm_encrypt(cfg.priv, kp[:16], salt, agent.boots.to_bytes(4, "big"), agent.time.to_bytes(4, "big"), plain)
+            d = rc.enc_v3_msg(req.msgid, 3, agent.engine, agent.boots, agent.time, cfg.user.encode(), bytes(12), salt, rc.tlv(0x04, ct))
+            s.inject(c01.patch_ids(d, req, cfg))
+        s.recv("get")
+    s.close()
+    return a, rec.n
+
+
+def encrypted_extents(chk, thorough):
+    """C16 behind the cipher: what the decoder is handed after decryption is exactly the decrypted octets"""
+    from vlib import scripts
+    std = scripts.all_cfgs()
+    rec = trace.Recorder("c16enc")
+    runs = []
+    for cn in ("v3-sha1-aes", "v3-md5-aes"):
+        for k in range(0, 16 if not thorough else 48):
+            for g in ([0, 1, 2, 5, 8, 15] if not thorough else list(range(0, 16))):
+                for stray in (False, True):
+                    if not thorough and (k + g + int(stray)) % 3:
+                        continue
+                    a, b = enc_case(rec, std[cn], k, g, stray)
+                    runs.append((a, b, dict(cfg=cn, k=k, g=g, stray=stray)))
+                    chk.case(("enc", cn, k, g, stray), nontrivial=g > 0)
+    rec.close()
+    v = trace.validate_parallel("TraceSession.tla", "TraceSession.cfg", rec.events, [(a, b) for a, b, _ in runs], k=8, name="c16enc")
+    for i, r in enumerate(v["results"]):
+        chk.add_tlc(r, "TraceSession(c16enc)#%d" % i)
+    chk.traces += len(runs)
+    ri = 0
+    for idx in v["fails"]:
+        while runs[ri][1] <= idx:
+            ri += 1
+        a, b, info = runs[ri]
+        ev = rec.events[idx]
+        chk.violation(dict(kind="encrypted-extent", overrun=info["g"] > 0, stray=info["stray"], ev=ev["ev"], got=ev.get("exc") or "value"),
+                      "%s: reply whose scoped PDU declares %d octets more than the %s ciphertext carries%s: %s %s" % (info["cfg"], info["g"], "AES-CFB",
+                      " (after a skipped encrypted reply)" if info["stray"] else "", ev["ev"], ev.get("exc") or json.dumps(ev.get("res"))[:120]),
+                      dict(kind="enc", info=info))
+    print("  %d encrypted-extent cases" % len(runs), flush=True)
+
+
 def run(tier):
     chk = Check("C16", tier)
     thorough = tier == "thorough"
@@ -110,6 +192,7 @@ def run(tier):
                               dict(kind="msg", mutant=m))
         if info["n"] > len(info["first"]):
             chk.violation(dict(kind=evname, more=True), "%d more failing records in batch" % (info["n"] - len(info["first"])), dict(kind=evname))
+    encrypted_extents(chk, thorough)
     chk.sample(dict(kind="ext-record", rec={k: (x if k != "b" else x[:24]) for k, x in rec.events[0]["recs"][9].items()}))
     chk.sample(dict(kind="message-mutant", mutant={k: (x if k != "b" else x[:40]) for k, x in muts[1234].items()}))
     return chk.finish()
@@ -118,6 +201,17 @@ def run(tier):
 def replay(path):
     d = json.load(open(path))
     r = d["replay"]
+    if r.get("kind") == "enc":
+        from vlib import scripts
+        info = r["info"]
+        rec = trace.Recorder("c16-replay")
+        enc_case(rec, scripts.all_cfgs()[info["cfg"]], info["k"], info["g"], info["stray"])
+        v = trace.validate("TraceSession.tla", "TraceSession.cfg", rec.close())
+        if v["accepted"] and not v["fails"]:
+            print("replay: accepted")
+            return 0
+        print("VIOLATION property=C16 replay=%s" % path)
+        return 1
     if r.get("kind") in ("value", "typed"):
         o = rs.run([{"op": "decode_value", "b": r["x"] + r["suffix"]}, {"op": "decode_value", "b": r["x"]}])
         print(o)
